@@ -322,42 +322,7 @@ func runC05(c *eng.Ctx) {
 	})
 
 	// ---- 3d. the cached index page is the page of the sequence being written ----------------------------------------------------------
-	c.Rule("GUARD", qPersist+"{cached index page = page of the sequence}", func() {
-		nv, ok := p.ConstInt64("pkg/queue", "indexItemsPerPage")
-		if !ok {
-			c.Undecided("constant pkg/queue.indexItemsPerPage not found")
-		}
-		f := c.Fn(qPersist)
-		isPage := func(v ssa.Value) bool {
-			bo, ok := eng.Unwrap(eng.UpParam(v)).(*ssa.BinOp)
-			if !ok || bo.Op != token.QUO {
-				return false
-			}
-			k, isC := eng.ConstInt(bo.Y)
-			return isC && k == nv
-		}
-		isCached := func(v ssa.Value) bool {
-			in, ok := eng.Unwrap(v).(ssa.Instruction)
-			return ok && eng.LoadField(qT+".indexPageIndex")(p, in)
-		}
-		same := eng.EdgesWithFact(f, func(ft eng.Fact) bool {
-			return ft.Op == "eq" && (isPage(ft.X) && isCached(ft.Y) || isPage(ft.Y) && isCached(ft.X))
-		})
-		var sw []eng.Site
-		for _, st := range p.Sites(f, eng.StoreField(qT+".indexPageIndex")) {
-			if isPage(st.Instr.(*ssa.Store).Val) {
-				sw = append(sw, st)
-			}
-		}
-		puts := c.Some(f, invokeOn(".indexPage", "PutUint64", "PutUint32"), "q.indexPage.PutUintNN(entry)")
-		for i, pu := range puts {
-			_, stale := eng.PathExists(eng.PathQuery{Fn: f, Target: func(in ssa.Instruction) bool { return in == pu.Instr },
-				Blocked: func(in ssa.Instruction) bool { return instrIn(in, sw) }, Edge: eng.ForbidEdges(same)})
-			c.Check(!stale, fmt.Sprintf("entry-into-the-page-of-its-sequence[%d]", i), pu.Instr, f,
-				"an index entry is written into the cached index page only when the cached page index EQUALS seq / indexItemsPerPage, or right after the cache was switched to that page (the appended sequence can also move backwards: SetAppendedSeq)",
-				"a path reaches the write with a cached page that was neither compared equal to the page of the sequence nor switched to it")
-		}
-	})
+	c.Rule("GUARD", qPersist+"{cached index page = page of the sequence}", func() { cachedIndexPageRule(c) })
 
 	// ---- 3e. a mapped data page is at least as large as the position at which alloc rolls over -------------------------------------
 	c.Rule("GUARD", "pkg/queue.NewQueue{data page size >= roll-over threshold}", func() {
@@ -924,5 +889,44 @@ func resetLeavesEmptyQueue(c *eng.Ctx) {
 		c.Check(!skip, "always-stored:"+fld, nil, f,
 			"SetAppendedSeq stores seq into "+fld+" on every path (unconditionally): after the reset acknowledged == appended == seq",
 			"a path returns without "+fld+".Store(seq)")
+	}
+}
+
+func cachedIndexPageRule(c *eng.Ctx) {
+	p := c.P
+	_ = p
+	nv, ok := p.ConstInt64("pkg/queue", "indexItemsPerPage")
+	if !ok {
+		c.Undecided("constant pkg/queue.indexItemsPerPage not found")
+	}
+	f := c.Fn(qPersist)
+	isPage := func(v ssa.Value) bool {
+		bo, ok := eng.Unwrap(eng.UpParam(v)).(*ssa.BinOp)
+		if !ok || bo.Op != token.QUO {
+			return false
+		}
+		k, isC := eng.ConstInt(bo.Y)
+		return isC && k == nv
+	}
+	isCached := func(v ssa.Value) bool {
+		in, ok := eng.Unwrap(v).(ssa.Instruction)
+		return ok && eng.LoadField(qT+".indexPageIndex")(p, in)
+	}
+	same := eng.EdgesWithFact(f, func(ft eng.Fact) bool {
+		return ft.Op == "eq" && (isPage(ft.X) && isCached(ft.Y) || isPage(ft.Y) && isCached(ft.X))
+	})
+	var sw []eng.Site
+	for _, st := range p.Sites(f, eng.StoreField(qT+".indexPageIndex")) {
+		if isPage(st.Instr.(*ssa.Store).Val) {
+			sw = append(sw, st)
+		}
+	}
+	puts := c.Some(f, invokeOn(".indexPage", "PutUint64", "PutUint32"), "q.indexPage.PutUintNN(entry)")
+	for i, pu := range puts {
+		_, stale := eng.PathExists(eng.PathQuery{Fn: f, Target: func(in ssa.Instruction) bool { return in == pu.Instr },
+			Blocked: func(in ssa.Instruction) bool { return instrIn(in, sw) }, Edge: eng.ForbidEdges(same)})
+		c.Check(!stale, fmt.Sprintf("entry-into-the-page-of-its-sequence[%d]", i), pu.Instr, f,
+			"an index entry is written into the cached index page only when the cached page index EQUALS seq / indexItemsPerPage, or right after the cache was switched to that page (the appended sequence can also move backwards: SetAppendedSeq)",
+			"a path reaches the write with a cached page that was neither compared equal to the page of the sequence nor switched to it")
 	}
 }
